@@ -42,6 +42,27 @@ CHECKS["C07"] = dict(
          "receiver-side contender runs (at most one go).",
     ref="6/C07")
 
+CHECKS["C19"] = dict(
+    text="Real choose_words/Allocator.build_and_notify run with symbolic random bytes (each word is the lower-cased table entry of its own draw, n one-byte "
+         "draws, tables are 256 distinct hyphen-free words: z3 Distinct); the regex literal of validate_nameplate is read from the current source and "
+         "compared with digits+ by z3 string-theory language inclusion (unbounded strings), and the real validate_code/Code.set_code/Input.choose_nameplate "
+         "run on fully symbolic strings (<=4/5 chars, all Unicode): accepted iff no U+0020 and a numeric nameplate, nothing sent on rejection; real "
+         "get_completions on fully symbolic prefixes (<=4/6 chars): every completion extends the prefix and completes the right-parity list word with the "
+         "right hyphenation; Input has a row for every helper call in every state; only one of allocate/set/input.",
+    note="os.urandom symbolic (uniformity of the OS source is the environment's contract); numeric = the class the running re module calls \\d; "
+         "completions for the default num_words=2; string lengths bounded as stated; symrun/regex.py translation validated per path against the real re.",
+    ref="6/C19")
+CHECKS["C14"] = dict(
+    text="The real composed client(s) created by wormhole.create (Boss and all machines, RendezvousConnector entry points, both API wrappers) run against the "
+         "server model under bounded symbolic schedules: every prefix of a canonical honest run for 12 configurations (set/allocate/input codes, wrong code, "
+         "deferred API, duplicated/reordered delivery, third participant, server error, welcome error, solo) followed by 2 (quick) / 3 (thorough) arbitrary "
+         "API/environment steps and a fair completion. Obligation on every path: no exception escapes an API call or ws_* entry point (NoTransition, "
+         "AssertionError, ...), nothing but the documented notices is logged via log.err, close() verdicts are documented ones. Known findings are listed "
+         "in known_findings.json and re-derived on every run.",
+    note="server/connectivity model env/client.py (from docs/server-protocol.rst), ideal PAKE/AEAD, frames may still be delivered between stop() and ws_close; "
+         "legal API use as defined in the evidence; bounded depth after each checkpoint, checkpoints are prefixes of canonical runs only.",
+    ref="6/C14")
+
 NOT_YET = {}
 
 NA = {}
